@@ -30,6 +30,7 @@ type RuleResult struct {
 	Samples     []string  `json:"samples,omitempty"`
 	Notes       []string  `json:"notes,omitempty"`
 	Anchors     []string  `json:"anchors,omitempty"`
+	Millis      int64     `json:"wall_ms,omitempty"`
 }
 
 func (r *RuleResult) ok(sample string) {
